@@ -24,6 +24,15 @@ func Root() string {
 	return "/verif"
 }
 
+// OutRoot is where evidence and replay files go: /verif, unless VERIF_OUT names a scratch
+// directory (seeded-change trials must not overwrite the evidence of the unchanged tree).
+func OutRoot() string {
+	if r := os.Getenv("VERIF_OUT"); r != "" {
+		return r
+	}
+	return Root()
+}
+
 // Finding is one entry of known_findings.json.
 type Finding struct {
 	Property  string `json:"property"`
@@ -237,7 +246,7 @@ func (r *Run) Finish() int {
 			fmt.Printf("VIOLATION property=%s replay=(replayed) signature=%q what=%s\n", r.Prop, s, oneLine(v.What))
 			continue
 		}
-		dir := filepath.Join(Root(), "replays", r.Prop)
+		dir := filepath.Join(OutRoot(), "replays", r.Prop)
 		_ = os.MkdirAll(dir, 0o755)
 		path := filepath.Join(dir, Hash(s)+".json")
 		rep := map[string]interface{}{
@@ -305,8 +314,8 @@ func (r *Run) Finish() int {
 		return 0
 	}
 	b, _ := json.MarshalIndent(ev, "", " ")
-	_ = os.MkdirAll(filepath.Join(Root(), "evidence"), 0o755)
-	if err := os.WriteFile(filepath.Join(Root(), "evidence", r.Prop+".json"), b, 0o644); err != nil {
+	_ = os.MkdirAll(filepath.Join(OutRoot(), "evidence"), 0o755)
+	if err := os.WriteFile(filepath.Join(OutRoot(), "evidence", r.Prop+".json"), b, 0o644); err != nil {
 		fmt.Fprintf(os.Stderr, "cannot write evidence: %v\n", err)
 		return 2
 	}
